@@ -67,6 +67,7 @@ fn uni_of<F: ark_ff::PrimeField, Pl: DenseUVPolynomial<F>>(deg: usize, seed: u64
     if c[deg].is_zero() {
         c[deg] = F::one();
     }
+    crate::util::low_zeros(&mut c, seed);
     Pl::from_coefficients_vec(c)
 }
 
@@ -82,6 +83,7 @@ fn uni_over<F: ark_ff::PrimeField, Pl: DenseUVPolynomial<F>>(info: &KeyInfo, mag
     if c[deg].is_zero() {
         c[deg] = F::one();
     }
+    crate::util::low_zeros(&mut c, seed);
     Some((Pl::from_coefficients_vec(c), format!("degree {deg} with supported degree {} (max {})", info.supported, info.max_degree)))
 }
 
@@ -587,7 +589,9 @@ fn check_setup(c: &SetupCase, ctx: &mut CaseCtx) -> Result<(), Failure> {
             // KZG10 directly: oversized polynomial, hiding 0, hiding beyond key, hiding without rng
             let Ok(keys) = kzg_keys(c.a, (s % 65536) as u16, (s >> 16) as u8, (s % 4) as u8) else { return Ok(()) };
             let deg = keys.supported + 1 + (s as usize % 3);
-            let big = UniPoly::from_coefficients_vec((0..=deg).map(|i| Fr::from(i as u64 + 1)).collect());
+            let mut bigc: Vec<Fr> = (0..=deg).map(|i| Fr::from(i as u64 + 1)).collect();
+            crate::util::low_zeros(&mut bigc, s);
+            let big = UniPoly::from_coefficients_vec(bigc);
             refused(ctx, "kzg10", "commit", "oversized_polynomial", &guard(|| Kzg::commit(&keys.powers(), &big, None, None)), || format!("degree {deg}, supported {}", keys.supported))?;
             let p = UniPoly::from_coefficients_vec(vec![Fr::from(3u64), Fr::from(4u64)]);
             let mut r = rng(s);
